@@ -3,7 +3,8 @@
     about the exact-rational instance [Qops] of the generic policy code of
     C10/Model.v (the binary64 instance [Fops] of the same code is what the
     correspondence compares with /repo off the dyadic grid).  Times are ns. *)
-From HS Require Import Base.Prelude C10.Model C10.QFacts C10.TokenBucket C10.Leaky C10.Sliding C10.Fixed C10.Adaptive C10.Entity C10.Dist C10.Reach.
+From HS Require Import Base.Prelude Base.PyLib C10.Model C10.QFacts C10.TokenBucket C10.Leaky C10.Sliding C10.Fixed C10.Adaptive C10.Entity C10.Dist C10.Reach
+  Gen.PolicyGen C10.GenTie C10.CodeRun.
 From Coq Require Import QArith Permutation.
 Local Open Scope Q_scope.
 
@@ -255,3 +256,56 @@ Theorem c10_side_conditions_reachable :
      (Z.of_nat (length (fst (run_count granted (sw_step Qops wn n) log ops))) <= n)%Z).
 Proof. exact side_conditions_reachable. Qed.
 Print Assumptions c10_side_conditions_reachable.
+
+(* ------------------------------------------------------------------ *)
+(** * The policy bounds for the code as REGENERATED from policy.py on every run
+    (Gen/PolicyGen.v, py2coq): the translated try_acquire / time_until_available,
+    driven through any call sequence, never over-admit. *)
+Theorem c10_code_token_bucket_bound : forall cap rate : Q, 0 < rate -> 0 <= cap ->
+  forall init pre mid B, 0 <= init -> init <= B -> cap <= B -> sorted (pre ++ mid) ->
+  let s0 := mkTokenBucketPolicy Qops cap rate init None in
+  let s1 := fst (run_count granted (tb_code_step Qops) s0 pre) in
+  inject_Z (snd (run_count granted (tb_code_step Qops) s1 mid)) <=
+    B + rate * qsecs (match mid with [] => 0 | o :: r => last_time (time_of o) r - time_of o end)%Z.
+Proof. exact tb_code_never_over_admits. Qed.
+Print Assumptions c10_code_token_bucket_bound.
+
+Theorem c10_code_leaky_spacing : forall rate iv ops last,
+  spaced_from iv last (run_times (lk_code_step Qops) (mkLeakyBucketPolicy Qops rate iv last) ops).
+Proof. exact lk_code_spacing. Qed.
+Print Assumptions c10_code_leaky_spacing.
+
+Theorem c10_code_sliding_window_bound : forall (ws : Q) n ops, (0 < n)%Z -> sorted ops ->
+  windows_ok (nanos Qops ws) n [] (run_times (sw_code_step Qops) (mkSlidingWindowPolicy Qops ws n []) ops).
+Proof. exact sw_code_never_over_admits. Qed.
+Print Assumptions c10_code_sliding_window_bound.
+
+Theorem c10_code_fixed_window_bound : forall (ws : Q) n, (1 <= nanos Qops ws)%Z -> (0 <= n)%Z -> forall ops k, sorted ops ->
+  (Z.of_nat (length (filter (inw (nanos Qops ws) k)
+     (run_times (fw_code_step Qops) (mkFixedWindowPolicy Qops n ws None 0) ops))) <= n)%Z.
+Proof. exact fw_code_aligned_bound. Qed.
+Print Assumptions c10_code_fixed_window_bound.
+
+(** Every translated method IS the model function (any arithmetic [O], so also the binary64 instance). *)
+Theorem c10_code_policies_refine_models : forall (O : numops),
+  (forall s now, let r := TokenBucketPolicy_try_acquire O s now in
+     (tb_abs O (fst r), snd r) = tb_acquire O (tb_par O s) (tb_abs O s) now /\ tb_par O (fst r) = tb_par O s) /\
+  (forall s now, let r := TokenBucketPolicy_time_until_available O s now in
+     (tb_abs O (fst r), snd r) = tb_tua O (tb_par O s) (tb_abs O s) now /\ tb_par O (fst r) = tb_par O s) /\
+  (forall s now, let r := LeakyBucketPolicy_try_acquire O s now in
+     (LeakyBucketPolicy__last_leak_time O (fst r), snd r)
+       = lk_acquire O (LeakyBucketPolicy__leak_interval O s) (LeakyBucketPolicy__last_leak_time O s) now
+     /\ LeakyBucketPolicy__leak_interval O (fst r) = LeakyBucketPolicy__leak_interval O s) /\
+  (forall s now, LeakyBucketPolicy_time_until_available O s now
+       = lk_tua O (LeakyBucketPolicy__leak_interval O s) (LeakyBucketPolicy__last_leak_time O s) now) /\
+  (forall s now, let r := FixedWindowPolicy_try_acquire O s now in
+     (fw_abs O (fst r), snd r) = fw_acquire (fw_wn O s) (FixedWindowPolicy__requests_per_window O s) (fw_abs O s) now
+     /\ fw_cfg O (fst r) = fw_cfg O s) /\
+  (forall s now, let r := FixedWindowPolicy_time_until_available O s now in
+     (fw_abs O (fst r), snd r) = fw_tua O (fw_wn O s) (FixedWindowPolicy__requests_per_window O s) (fw_abs O s) now
+     /\ fw_cfg O (fst r) = fw_cfg O s).
+Proof.
+  intros O. exact (conj (tie_tb_acquire O) (conj (tie_tb_tua O) (conj (tie_lk_acquire O) (conj (tie_lk_tua O)
+          (conj (tie_fw_acquire O) (tie_fw_tua O)))))).
+Qed.
+Print Assumptions c10_code_policies_refine_models.
